@@ -4,6 +4,8 @@
      model column: the projection C02 constrains, as Session.Parse + accessors produce it:
                    "err:any" | "panic" | "ok id smac sip sport dmac dip dport E:off,len 4:.. 6:.. U:.. T:.. P:.. H:b"
      spec column:  the same line as the reference decoder (Spec/RFC.v) expects it for the bytes within the length
+   table KIND (payloadid | ethertype | ipproto | udpports)
+     model column: the model's classification table (the lists the model is defined from) in canonical text
      key column:   key of the recorded defect class the frame lies in (Model/ParseKnown.v, known_C02) or "-" *)
 From PV Require Import Base.Text Base.Slice Model.Parse Model.ParseShow Model.ParseKnown.
 Open Scope string_scope.
@@ -22,6 +24,13 @@ Definition dispatch (kind : string) (args : list string) : string :=
                  (match known_C02 (c_fx c) b with Some k => k | None => "-" end)
         | _, _, _ => BADARGS
         end
+    | _ => BADARGS
+    end
+  else if String.eqb kind "table" then
+    (* table KIND: the classification table of the model in canonical text; the implementation side is the same
+       text extracted from layer_frame.go by go/ast (harness/cmd/c02/tables.go) *)
+    match args with
+    | [k] => match show_table k with Some txt => out3 txt "-" "-" | None => BADARGS end
     | _ => BADARGS
     end
   else BADARGS.
